@@ -243,8 +243,43 @@ fn hand_shaped(ctx: &mut Ctx) {
     }
 }
 
+/// what `printf` shows for an object: every ordered selection of 1..3 field names out of 8 (names that
+/// are prefixes of each other, digits, upper case, underscore), under 4 parent kinds, plus one nested level
+fn rendering(ctx: &mut Ctx) {
+    ctx.stage("printf rendering of objects (field names x parents)");
+    let names = ["b", "a", "a1", "ab", "a10", "B", "_", "a="];
+    let s = |x: &str| Const::Str(x.into());
+    let mut sels: Vec<Vec<usize>> = vec![];
+    for i in 0..names.len() { sels.push(vec![i]); for j in 0..names.len() { if j == i { continue } sels.push(vec![i, j]); for k in 0..names.len() { if k == i || k == j { continue } sels.push(vec![i, j, k]) } } }
+    for sel in sels {
+        for parent in 0..4usize {
+            if ctx.take().is_none() { continue }
+            // pool: 0 main, 1 format, 2 null, 3 int 7, 4 int 2, 5.. names, then slots, class, inner class, entry
+            let mut consts = vec![s("main"), s("<~>\\n"), Const::Null, Const::Int(7), Const::Int(2)];
+            let nbase = consts.len() as u16;
+            for i in &sel { consts.push(s(names[*i])) }
+            let sbase = consts.len() as u16;
+            for k in 0..sel.len() { consts.push(Const::Slot(nbase + k as u16)) }
+            let class = consts.len() as u16;
+            consts.push(Const::Class((0..sel.len()).map(|k| sbase + k as u16).collect()));
+            let empty = consts.len() as u16;
+            consts.push(Const::Class(vec![]));
+            let mut code = match parent { 0 => vec![Ins::Lit(2)], 1 => vec![Ins::Lit(3)], 2 => vec![Ins::Lit(4), Ins::Lit(3), Ins::Array], _ => vec![Ins::Lit(2), Ins::Object(empty)] };
+            for k in 0..sel.len() { code.push(if k == 1 { Ins::Lit(2) } else { Ins::Lit(3) }) }
+            code.push(Ins::Object(class)); code.push(Ins::Print(1, 1)); code.push(Ins::Return);
+            consts.push(Const::Method { name: 0, arity: 0, locals: 0, code });
+            let entry = consts.len() as u16 - 1;
+            let y = Prog { consts, globals: vec![], entry };
+            let what = format!("object with fields {:?} (in this order), parent kind {}", sel.iter().map(|i| names[*i]).collect::<Vec<_>>(), parent);
+            conform(ctx, "rendering", &y, &|| json!({"program": what, "abstract": format!("{:?}", y)}));
+            ctx.nontrivial(what.as_bytes());
+        }
+    }
+}
+
 pub fn run(ctx: &mut Ctx) {
     hand_shaped(ctx);
+    rendering(ctx);
     builtins(ctx);
     formats(ctx);
     ctx.stage("layout transformations of compiler output: U-SCALE");
